@@ -18,7 +18,7 @@ META = {
     "quick_s": 60, "thorough_s": 600,
 }
 
-THEOREMS = ["relate_sound", "relate_complete_partial"]
+THEOREMS = ["relate_sound", "teq_sound_in_models", "relate_complete_partial"]
 
 I, CO, CONTRA = "Invariant", "Covariant", "Contravariant"
 
@@ -171,7 +171,7 @@ def run(ctx):
     core.build_harness(bins=["infer"])
     r = ctx.rng
     fams = [("pinned", pinned_cases()), ("sweep", sweep_cases())]
-    total = ctx.n(2600, 130000)
+    total = ctx.n(1500, 130000)
     fams.append(("c14-invariant", random_cases(ctx, total // 2, r, PROFILES["c14-invariant"])))
     fams.append(("c14-covariant-lifetime-free", random_cases(ctx, total // 5, r, PROFILES["c14-covariant-lifetime-free"])))
     fams.append(("extended", random_cases(ctx, total - total // 2 - total // 5, r, PROFILES["extended"])))
